@@ -37,7 +37,7 @@ def run(ctx):
 
 def name_checker(p):
     """role: the function called in build_lossy whose Result gates keeping a logger"""
-    f = p.fn(BUILD_LOSSY)
+    f = p.fn_loops(BUILD_LOSSY)
     cands = [c for c in f.calls() if c.callee in p.fns and c.t.get("dest_ty", "").startswith("core::result::Result<(), %s" % CONFIG_ERROR)]
     if len(cands) != 1:
         raise AnchorMissing("expected one name-validation call in build_lossy, found %s" % [c.callee for c in cands])
@@ -49,7 +49,7 @@ def rule_retention(ctx, p, cfg, rid="V2"):
     """what build_lossy keeps: an appender iff its name is new, a reference iff it names a kept appender, a logger iff its name
     is new and well-formed; kept in order"""
     with ctx.rule(rid, "retention filters", cfg) as r:
-        f = p.fn(BUILD_LOSSY)
+        f = p.fn_loops(BUILD_LOSSY)
         nc = name_checker(p)
         pushes = f.calls(PUSH)
         inserts = f.calls(INSERT)
@@ -185,7 +185,7 @@ def run_cfg(ctx, p, cfg):
         r.require(tab.get(True) == {"Ok"} and tab.get(False) == {"Err"}, "ok-iff-no-errors", fn=b, detail="errors.is_empty() true -> %s, false -> %s" % (tab.get(True), tab.get(False)))
         ie = p.fn("config::runtime::ConfigErrors::is_empty")
         r.require(any(x[0] == "call" and x[1].endswith("::is_empty") for x in walk(ie.local_expr(0))) and any(x[0] == "field" for x in walk(ie.local_expr(0))), "is_empty-of-the-error-list", fn=ie, detail=show(ie.local_expr(0), 4))
-        f = p.fn(BUILD_LOSSY)
+        f = p.fn_loops(BUILD_LOSSY)
         nc = name_checker(p)
         for c in f.calls(PUSH):
             a = c.arg(1)
